@@ -368,3 +368,4 @@ class AVERAGEIFS:
     loops = [dict(types=dict(sum_value=INT, count_value=INT),
                   inv=lambda k, average_range, criteria, sum_value, count_value:
                   same(sum_value, selected_sum(k, average_range, criteria[0])) and same(count_value, selected_count(k, criteria[0])))]
+
